@@ -344,3 +344,8 @@ func (c *Ctx) RunChild(arg string, timeout time.Duration) (results []string, at 
 	}
 	return results, at, ""
 }
+
+// Registry maps a property id to its check; property packages register in init().
+var Registry = map[string]func(*Ctx){}
+
+func Register(id string, f func(*Ctx)) { Registry[id] = f }
